@@ -142,34 +142,22 @@ func runRaceSupplement(c *Ctx, id string) {
 	reports := 0
 	for _, m := range raceBlock.FindAllStringSubmatch(text, -1) {
 		blk := m[1]
-		// the two accesses: first frame after "... by goroutine" headers
-		parts := regexp.MustCompile(`(?m)^(?:Write|Read|Previous write|Previous read|Atomic|Previous atomic)[^\n]*\n`).Split(blk, -1)
+		// the first two stanzas are the stacks of the two accesses
+		stanzas := strings.Split(blk, "\n\n")
 		var tops []string
-		for _, p := range parts[1:] {
-			fm := raceFrame.FindStringSubmatch("\n" + p)
-			if fm != nil {
-				tops = append(tops, fm[1]+":"+fm[2])
+		attributable := len(stanzas) >= 2
+		for _, st := range stanzas[:min(2, len(stanzas))] {
+			top, ok := raceStackByImplementation(st)
+			if !ok {
+				attributable = false
 			}
-			if len(tops) == 2 {
-				break
-			}
+			tops = append(tops, top)
 		}
-		inRepo := len(tops) == 2
-		for _, t := range tops {
-			if strings.Contains(t, "/verifx/") || strings.Contains(t, "zz_verif_") || strings.Contains(t, "/verif/") || strings.Contains(t, "/go/pkg/mod/") || strings.Contains(t, "/toolchain") {
-				inRepo = false
-			}
-		}
-		if !inRepo {
-			c.Inc("supplement_race_reports_outside_repository_code")
+		if !attributable || len(tops) != 2 {
+			c.Inc("supplement_race_reports_not_attributable_to_the_implementation")
 			continue
 		}
 		reports++
-		for i := range tops {
-			if j := strings.LastIndex(tops[i], "/"); j >= 0 {
-				tops[i] = tops[i][j+1:]
-			}
-		}
 		if tops[1] < tops[0] {
 			tops[0], tops[1] = tops[1], tops[0]
 		}
@@ -178,6 +166,55 @@ func runRaceSupplement(c *Ctx, id string) {
 	}
 	info["reports_in_repository_code"] = reports
 	c.Info["supplement_race_detector"] = info
+}
+
+var raceEntryPoints = []string{".ServeHTTP(", ".Validate(", "loadHTPasswdFile(", "LoadAuthenticatedEmailsFile(", ".IsValid(", "VerifReload("}
+
+// raceStackByImplementation decides whether an access stack of a race report belongs to the
+// implementation: walking from the access towards the goroutine's root, an entry point of the
+// implementation (ServeHTTP, Validate, the reload functions) must be reached before any frame
+// of the harness or its shims. An access the harness makes through a shim on the
+// implementation's behalf (e.g. the virtual clock being moved by a sleeping retry loop) is not
+// the implementation's race. Returns "file.go:line" of the access.
+func raceStackByImplementation(stanza string) (top string, ok bool) {
+	lines := strings.Split(stanza, "\n")
+	type frame struct{ fn, loc string }
+	var frames []frame
+	for i := 1; i+1 < len(lines); i += 2 {
+		fn := strings.TrimSpace(lines[i])
+		loc := strings.TrimSpace(lines[i+1])
+		if j := strings.Index(loc, " +0x"); j >= 0 {
+			loc = loc[:j]
+		}
+		frames = append(frames, frame{fn, loc})
+	}
+	if len(frames) == 0 {
+		return "", false
+	}
+	harness := func(f frame) bool {
+		return strings.Contains(f.fn, "/verifx/") || strings.Contains(f.loc, "zz_verif_") || strings.Contains(f.loc, "/verifx/") || strings.Contains(f.loc, "/verif/")
+	}
+	repo := func(f frame) bool {
+		return strings.HasPrefix(f.fn, "github.com/oauth2-proxy/oauth2-proxy/") && !harness(f)
+	}
+	if !repo(frames[0]) {
+		return "", false
+	}
+	top = frames[0].loc
+	if j := strings.LastIndex(top, "/"); j >= 0 {
+		top = top[j+1:]
+	}
+	for _, f := range frames {
+		if harness(f) {
+			return top, false
+		}
+		for _, ep := range raceEntryPoints {
+			if strings.Contains(f.fn, ep) && repo(f) {
+				return top, true
+			}
+		}
+	}
+	return top, false
 }
 
 func clipN(s string, n int) string {
